@@ -405,6 +405,12 @@ func (c *pathParser) addSeg(segString []byte) error {
 
 // addArcFromA adds a path of an arc element to the cursor path to the pathCursor
 func (c *pathParser) addArcFromA(points []Fl) {
+	if points[0] == 0 || points[1] == 0 {
+		// a zero radius is a straight line to the end point
+		c.lineTo(points[5], points[6])
+		c.currentX, c.currentY = points[5], points[6]
+		return
+	}
 	ra, rb := float64(points[0]), float64(points[1])
 	cx, cy := findEllipseCenter(&ra, &rb, float64(points[2])*math.Pi/180, float64(c.currentX),
 		float64(c.currentY), float64(points[5]), float64(points[6]), points[4] == 0, points[3] == 0)
